@@ -43,6 +43,10 @@ struct BufProxy
     b.Consume(n, cb);
   }
   size_t max_size() const { return b.max_size(); }
+  // diagnostic counters (monotone totals): passed through without a scheduling point or an event; if the code started to
+  // decide anything on them, the decisions would still have to be accepted event by event
+  auto consumption_count() const -> decltype(b.consumption_count()) { return b.consumption_count(); }
+  auto production_count() const -> decltype(b.production_count()) { return b.production_count(); }
 };
 template <class B>
 BufProxy<B> bufproxy(B &b)
